@@ -382,14 +382,18 @@ pub mod sponge {
 
 // ------------------------------------------------------------------ "vh." family: variable-length SHA-256
 
-/// p = [len]; ins = the message bytes. The vector's cells are not reachable
-/// from outside the crate, so only the digest is published: honest executions
-/// are judged (completeness and the digest's value), Byzantine ones are not.
+/// p = [len, filler]; ins = the message bytes. The vector's cells are not
+/// reachable from outside the crate, so only the digest is published: honest
+/// executions are judged (completeness and the digest's value); the Byzantine
+/// stage edits only cells that hold the filler byte, which is chosen above the
+/// capacity and outside the message: those are the unused cells of the buffer
+/// (or derived cells, which the constraints bind), so the message is unchanged
+/// and an accepted execution must still publish its digest.
 pub mod varsha {
     use midnight_circuits::{
         field::{decomposition::chip::P2RDecompositionChip, AssignedNative, NativeChip, NativeGadget},
         hash::sha256::VarLenSha256Gadget,
-        instructions::{hash::VarHashInstructions, AssignmentInstructions, PublicInputInstructions},
+        instructions::{hash::VarHashInstructions, vector::VectorInstructions, PublicInputInstructions},
         testing_utils::FromScratch,
         types::AssignedByte,
         vec::{vector_gadget::VectorGadget, AssignedVector},
@@ -410,12 +414,28 @@ pub mod varsha {
     pub fn gen_case(rng: &mut Prng) -> OpCase {
         // every block-boundary class of the padding logic, then uniform
         let len = match rng.below(3) {
-            0 => *rng.pick(&[0usize, 1, 55, 56, 63, 64, 65, 119, 120, 127, 128]),
+            0 => *rng.pick(&[0usize, 1, 55, 56, 57, 62, 63, 64, 65, 119, 120, 121, 126, 127, 128]),
             _ => rng.usize(M + 1),
         };
         let mode = rng.below(3);
-        let ins: Vec<Fe> = (0..len).map(|_| Fe(Fq::from(match mode { 0 => 0u64, 1 => 0xff, _ => rng.below(256) }))).collect();
-        OpCase { op: "vh.sha256".into(), p: vec![len as u64], big: vec![], ins, bins: vec![], cols: 4, mbl: 8 }
+        // the unused part of the buffer: the default filler (0), or a chosen byte above the
+        // capacity (so that it is never the length) that does not occur in the message -
+        // the cells holding it are then exactly the unused ones, which the Byzantine stage edits
+        let filler = if rng.chance(1, 3) { 0u64 } else { *rng.pick(&[0x80u64, 0xff, 0xa7, 0x81, 0xc3]) };
+        let ins: Vec<Fe> = (0..len)
+            .map(|_| {
+                let mut b = match mode {
+                    0 => 0u64,
+                    1 => 0xfe,
+                    _ => rng.below(256),
+                };
+                if filler != 0 && b == filler {
+                    b ^= 1;
+                }
+                Fe(Fq::from(b))
+            })
+            .collect();
+        OpCase { op: "vh.sha256".into(), p: vec![len as u64, filler], big: vec![], ins, bins: vec![], cols: 4, mbl: 8 }
     }
 
     #[derive(Clone)]
@@ -442,7 +462,8 @@ pub mod varsha {
             let ng = NG::new_from_scratch(&config.1);
             let vg = VectorGadget::new(&ng);
             let data: Vec<u8> = self.case.ins.iter().map(|x| x.0.to_bytes_le()[0]).collect();
-            let input: AssignedVector<F, AssignedByte<F>, M, 64> = vg.assign(&mut l, if self.known { Value::known(data) } else { Value::unknown() })?;
+            let filler = self.case.p.get(1).copied().filter(|f| *f != 0).map(|f| f as u8);
+            let input: AssignedVector<F, AssignedByte<F>, M, 64> = vg.assign_with_filler(&mut l, if self.known { Value::known(data) } else { Value::unknown() }, filler)?;
             let out: [AssignedByte<F>; 32] = chip.varhash(&mut l, &input)?;
             for b in &out {
                 let n: AssignedNative<F> = b.into();
@@ -461,6 +482,102 @@ pub mod varsha {
             Ok(true)
         } else {
             Err(format!("variable-length SHA-256 of a {}-byte message (capacity {M}): the circuit publishes another digest than the reference function", data.len()))
+        }
+    }
+}
+
+// ------------------------------------------------------------------ "hr." family: RIPEMD-160
+
+/// p = [len]; ins = the message bytes. RIPEMD-160 is not reachable through
+/// `ZkStdLib`; the circuit is built on `RipeMD160Chip` directly. Input bytes
+/// and digest are published, so Byzantine executions are judged too.
+pub mod rip {
+    use midnight_circuits::{
+        field::{decomposition::chip::P2RDecompositionChip, AssignedNative, NativeChip, NativeGadget},
+        hash::ripemd160::RipeMD160Chip,
+        instructions::{hash::HashInstructions, AssignmentInstructions, PublicInputInstructions},
+        testing_utils::FromScratch,
+        types::AssignedByte,
+    };
+    use midnight_curves::Fq;
+    use midnight_proofs::{
+        circuit::{Layouter, SimpleFloorPlanner, Value},
+        plonk::{Circuit, ConstraintSystem, Error},
+    };
+    use ripemd::Digest;
+
+    use crate::{core::prng::Prng, ops::OpCase, util::{fq_to_big, Fe}};
+
+    type F = Fq;
+    type NG = NativeGadget<F, P2RDecompositionChip<F>, NativeChip<F>>;
+
+    pub fn gen_case(rng: &mut Prng) -> OpCase {
+        // every padding-boundary class of the 64-byte block, then uniform up to two blocks
+        let len = match rng.below(4) {
+            0 => rng.usize(121),
+            _ => *rng.pick(&[0usize, 1, 2, 54, 55, 56, 57, 63, 64, 65, 100, 118, 119, 120]),
+        };
+        let mode = rng.below(4);
+        let ins: Vec<Fe> = (0..len).map(|_| Fe(Fq::from(match mode { 0 => 0u64, 1 => 0xff, _ => rng.below(256) }))).collect();
+        OpCase { op: "hr.ripemd160".into(), p: vec![len as u64], big: vec![], ins, bins: vec![], cols: 4, mbl: 8 }
+    }
+
+    #[derive(Clone)]
+    pub struct RipCircuit {
+        pub case: OpCase,
+        pub known: bool,
+    }
+
+    impl Circuit<F> for RipCircuit {
+        type Config = <RipeMD160Chip<F> as FromScratch<F>>::Config;
+        type FloorPlanner = SimpleFloorPlanner;
+        type Params = ();
+        fn without_witnesses(&self) -> Self {
+            RipCircuit { case: self.case.clone(), known: false }
+        }
+        fn configure(meta: &mut ConstraintSystem<F>) -> Self::Config {
+            let committed = meta.instance_column();
+            let plain = meta.instance_column();
+            RipeMD160Chip::configure_from_scratch(meta, &[committed, plain])
+        }
+        fn synthesize(&self, config: Self::Config, mut l: impl Layouter<F>) -> Result<(), Error> {
+            let chip = RipeMD160Chip::<F>::new_from_scratch(&config);
+            let ng = NG::new_from_scratch(&config.1);
+            let mut bytes: Vec<AssignedByte<F>> = vec![];
+            for x in &self.case.ins {
+                let v = if self.known { Value::known(x.0.to_bytes_le()[0]) } else { Value::unknown() };
+                let b: AssignedByte<F> = ng.assign(&mut l, v)?;
+                let n: AssignedNative<F> = (&b).into();
+                ng.constrain_as_public_input(&mut l, &n)?;
+                bytes.push(b);
+            }
+            let out: [AssignedByte<F>; 20] = chip.hash(&mut l, &bytes)?;
+            for b in &out {
+                let n: AssignedNative<F> = b.into();
+                ng.constrain_as_public_input(&mut l, &n)?;
+            }
+            chip.load_from_scratch(&mut l)
+        }
+    }
+
+    pub fn check(c: &OpCase, publics: &[Fq]) -> Result<bool, String> {
+        let n = c.p[0] as usize;
+        if publics.len() != n + 20 {
+            return Err(format!("{} public values, {} expected", publics.len(), n + 20));
+        }
+        let mut msg = vec![];
+        for b in &publics[..n] {
+            if fq_to_big(b).bits() > 8 {
+                return Ok(false); // a non-byte input must be unsatisfiable
+            }
+            msg.push(b.to_bytes_le()[0]);
+        }
+        let d: [u8; 20] = ripemd::Ripemd160::digest(&msg).into();
+        let e: Vec<Fq> = d.iter().map(|b| Fq::from(*b as u64)).collect();
+        if publics[n..] == e[..] {
+            Ok(true)
+        } else {
+            Err(format!("RIPEMD-160 of a {n}-byte message: the circuit publishes another digest than the reference function"))
         }
     }
 }
